@@ -99,7 +99,8 @@ class C12(Prop):
     search_budget = {'quick': 10000, 'thorough': 200000}
     rule = ('case = (cloud, job-private manager, 0..3 locations, 0..5 pools with worker type / cores from the valid-cores tables, preemptible, '
             'label, per-location prices with ties; request = machine_type | (cpu string, memory = lowmem/standard/highmem or a size string, '
-            'storage string, preemptible, pool_label), sent as a job through the real validate_and_clean_jobs in modern or deprecated spelling '
+            'storage string, preemptible, pool_label); 15% of the cases repeat the request on the same InstanceCollectionConfigs object after '
+            '1-2 pool reconfigurations written to inst_colls / pools (minisql) and read back by the real create() / refresh(); sent as a job through the real validate_and_clean_jobs in modern or deprecated spelling '
             '(pvc_size for resources.storage with the resources key absent / empty / present, command+image for process, gcsfuse, parent_ids)); memory sizes are boundary-directed (ceil(k*per_core/1000) -1/0/+1 for packable and '
             'arbitrary k), storage at 0, 10Gi+-1 and the cloud limit +-1; non-trivial = a placement, or an unsatisfiable answer with at '
             'least one collection matching cloud/preemptibility/label; distinct by full case')
@@ -107,6 +108,7 @@ class C12(Prop):
                'the resource block of _create_jobs is taken by AST (statements from `resources = spec.get(\'resources\')` to '
                '`resources[\'preemptible\'] = preemptible`) and executed in the imported front_end module namespace',
                'the job is first passed through the real batch.front_end.validate.validate_and_clean_jobs (schema + deprecated keys)',
+               'sequence cases: InstanceCollectionConfigs.create / refresh read inst_colls and pools through harness/minisql',
                'PoolConfig.price_per_hour and possible_cloud_locations replaced by case-supplied integer tables',
                "harness's own reading of size strings (value * unit, rounded up) used to state what was requested"]
     assumptions = ['job spec cloud == deployment CLOUD (the job schema has no cloud key)',
@@ -134,6 +136,7 @@ class C12(Prop):
         import batch.front_end.front_end as fe
         import batch.inst_coll_config as icc
         self.web, self.fe, self.icc = web, fe, icc
+        self.repo, self.mdb = repo, None
         import batch.front_end.validate as validate_mod
         from hailtop.utils.validate import ValidationError
         self.validate_and_clean_jobs, self.ValidationError = validate_mod.validate_and_clean_jobs, ValidationError
@@ -256,27 +259,77 @@ class C12(Prop):
             job['always_run'] = False
         return job
 
+    # ---- sequences on ONE InstanceCollectionConfigs object: request, reconfigure the pools + refresh(), the same request again ----
+    @staticmethod
+    def _steps(c):
+        """the case as it stands at each step: the initial configuration, then each reconfiguration of c['then']"""
+        base = {k: v for k, v in c.items() if k != 'then'}
+        return [base] + [dict(base, pools=t['pools'], jpim=t['jpim']) for t in c.get('then') or []]
+
+    def _db(self):
+        if getattr(self, 'mdb', None) is None:
+            import asyncio
+            import random as _random
+            from .. import minisql
+            from ..minisql import fakepool
+            self.mdb = minisql.from_repo(self.repo, _random.Random(0), lambda: 1.7e9)
+            self.loop = asyncio.new_event_loop()
+            self.gdb = self.loop.run_until_complete(fakepool.make_database(self.mdb))
+        return self.mdb, self.gdb, self.loop
+
+    def _write_config(self, mdb, c):
+        """the inst_colls / pools tables as an operator's reconfiguration leaves them"""
+        mdb.execute('DELETE FROM pools')
+        mdb.execute('DELETE FROM inst_colls')
+        ic = dict(boot_disk_size_gb=10, max_instances=10, max_live_instances=10, max_new_instances_per_autoscaler_loop=1,
+                  autoscaler_loop_period_secs=15, worker_max_idle_time_secs=30)
+        mdb.load_rows('inst_colls', [dict(name=p['name'], is_pool=1, cloud=p['cloud'], **ic) for p in c['pools']]
+                      + [dict(name=c['jpim']['name'], is_pool=0, cloud=c['jpim']['cloud'], **ic)])
+        mdb.load_rows('pools', [dict(name=p['name'], worker_type=p['worker_type'], worker_cores=p['cores'], worker_local_ssd_data_disk=1,
+                                     worker_external_ssd_data_disk_size_gb=0, enable_standing_worker=0, standing_worker_cores=p['cores'],
+                                     preemptible=1 if p['preemptible'] else 0, label=p['label'], min_instances=0,
+                                     standing_worker_max_idle_time_secs=30, job_queue_scheduling_window_secs=150) for p in c['pools']])
+
     def impl(self, c):
+        steps = self._steps(c)
+        if len(steps) == 1:
+            return [self._ask(c, self._configs(c))]
+        # the real create() / refresh() read the configuration from the database (minisql)
+        mdb, gdb, loop = self._db()
+        out = []
+        configs = None
+        for st in steps:
+            self._write_config(mdb, st)
+            if configs is None:
+                configs = loop.run_until_complete(self.icc.InstanceCollectionConfigs.create(gdb))
+            else:
+                loop.run_until_complete(configs.refresh(gdb))
+            out.append(self._ask(st, configs))
+        return out
+
+    def _ask(self, c, configs):
         self.case_box['locs'] = c['locs']
         self.case_box['prices'] = {p['name']: p['prices'] for p in c['pools']}
-        configs = self._configs(c)
         spec = self._job(c)
         app = {'inst_coll_configs': configs, 'feature_flags': {}}
         try:
             self.validate_and_clean_jobs([spec])       # the real schema check + rewrite of deprecated keys (mutates spec)
         except self.ValidationError:
-            return ['reject invalid']
+            return 'reject invalid'
         try:
             name, res = _drive(self.block(spec, app, c['cloud'], c['cloud'], (1, 1), 1, 1))
         except self.web.HTTPBadRequest as e:
             reason = e.reason or ''
-            return ['reject unsatisfiable' if 'unsatisfiable' in reason else 'reject invalid']
+            return 'reject unsatisfiable' if 'unsatisfiable' in reason else 'reject invalid'
         except Exception as e:  # assert / ValueError / TypeError: an internal error (HTTP 500)
-            return ['err']
-        return [f"ok {name} {res['cores_mcpu']} {res['memory_bytes']} {res['storage_gib']}"]
+            return 'err'
+        return f"ok {name} {res['cores_mcpu']} {res['memory_bytes']} {res['storage_gib']}"
 
     # ---- model line ---------------------------------------------------------------------------------
     def model_lines(self, c):
+        return [self._model_line(st) for st in self._steps(c)]
+
+    def _model_line(self, c):
         d = self.defaults
         dmem = 's=' + d['memory'] if d['memory'] in self.tables['memory_types'] else 'b%d' % size_bytes(d['memory'])
         t = [c['cloud'], '=' + c['jpim']['name'], c['jpim']['cloud'], 'D', str(cpu_mcpu(d['cpu'])), dmem, str(size_bytes(d['storage'])),
@@ -292,7 +345,7 @@ class C12(Prop):
               opt(r.get('preemptible'), lambda b: '1' if b else '0'), opt(r.get('cpu'), lambda x: str(x[0])),
               opt(r.get('memory'), lambda m: 's=' + m[1] if m[0] == 'sym' else 'b%d' % m[1]), opt(r.get('storage'), lambda x: str(x[0])),
               opt(r.get('pvc_size'), lambda x: str(x[0]))]
-        return [' '.join(t)]
+        return ' '.join(t)
 
     # ---- the property on the real output -------------------------------------------------------------
     def _resolved(self, c):
@@ -365,9 +418,22 @@ class C12(Prop):
         return False
 
     def oracle(self, c, out):
-        o = out[0]
-        if o.startswith('IMPL-EXC'):
-            return o
+        if out[0].startswith('IMPL-EXC'):
+            return out[0]
+        steps = self._steps(c)
+        if len(out) != len(steps):
+            return f'{len(out)} answers for {len(steps)} requests'
+        for k, (st, o) in enumerate(zip(steps, out)):
+            # every answer is judged against the configuration in force when the request was made
+            m = self._oracle_step(st, o)
+            if m:
+                if k:
+                    m = (f'after reconfiguration {k} + refresh() (pools now '
+                         f'{[(p["name"], p["worker_type"], p["cores"], p["preemptible"], p["label"]) for p in st["pools"]]}): ') + m
+                return m
+        return None
+
+    def _oracle_step(self, c, o):
         cloud = c['cloud']
         r = c['req']
         q = self._resolved(c)
@@ -561,10 +627,42 @@ class C12(Prop):
                 spelling['mount_docker_socket_false'] = True
             if rng.random() < 0.2:
                 spelling['extras'] = True
-            yield {'cloud': cloud, 'jpim': jpim, 'locs': locs, 'pools': pools, 'req': req, 'spelling': spelling}
+            case = {'cloud': cloud, 'jpim': jpim, 'locs': locs, 'pools': pools, 'req': req, 'spelling': spelling}
+            if pools and rng.random() < 0.15 and all(self._pool_ok(p) for p in pools):
+                # an operator reconfigures the pools (worker cores / type / preemptibility / label, pools added or dropped, the job-private
+                # manager moved) and the front end refresh()es: the same request is asked again of the same object
+                then, cur, curj = [], pools, jpim
+                for _ in range(rng.choice([1, 1, 2])):
+                    cur = [dict(p) for p in cur]
+                    curj = dict(curj)
+                    for p in cur:
+                        t = rng.random()
+                        if t < 0.45:
+                            p['cores'] = rng.choice(self.valid_cores[p['cloud']][p['worker_type']])
+                        elif t < 0.55:
+                            p['worker_type'] = rng.choice(list(self.valid_cores[p['cloud']].keys()))
+                            p['cores'] = rng.choice(self.valid_cores[p['cloud']][p['worker_type']])
+                        elif t < 0.65:
+                            p['preemptible'] = not p['preemptible']
+                        elif t < 0.72:
+                            p['label'] = rng.choice(['', 'gpu', 'x'])
+                    if len(cur) > 1 and rng.random() < 0.15:
+                        cur.pop(rng.randrange(len(cur)))
+                    if rng.random() < 0.1:
+                        curj['cloud'] = other if curj['cloud'] == cloud else cloud
+                    then.append({'pools': cur, 'jpim': curj})
+                case['then'] = then
+            yield case
 
     def classify(self, c, out):
-        o = out[0]
+        key, tags = self._classify_step(self._steps(c)[0], out[0])
+        if c.get('then'):
+            tags.append(f'reconfigurations={len(c["then"])}')
+            tags.append('answer-changes-after-reconfiguration' if len(set(out)) > 1 else 'answer-same-after-reconfiguration')
+            key = json.dumps(c, sort_keys=True)
+        return key, tags
+
+    def _classify_step(self, c, o):
         q = self._resolved(c)
         kind = o.split(' ')[0] if o.startswith('ok') else o
         tags = [f"cloud={c['cloud']}", f'answer={kind}']
@@ -602,7 +700,7 @@ class C12(Prop):
 
     def finding_key(self, c, msg):
         r = c['req']
-        return json.dumps({'cloud': c['cloud'], 'req': r, 'pools': c['pools'], 'jpim': c['jpim'], 'spelling': c.get('spelling')}, sort_keys=True)
+        return json.dumps({'cloud': c['cloud'], 'req': r, 'pools': c['pools'], 'jpim': c['jpim'], 'spelling': c.get('spelling'), 'then': c.get('then')}, sort_keys=True)
 
     def shrink(self, c, fails):
         cur = json.loads(json.dumps(c))
@@ -618,6 +716,14 @@ class C12(Prop):
         changed = True
         while changed:
             changed = False
+            for i in range(len(cur.get('then') or [])):
+                cand = json.loads(json.dumps(cur))
+                del cand['then'][i]
+                if attempt(cand):
+                    changed = True
+                    break
+            if changed:
+                continue
             for i in range(len(cur['pools'])):
                 cand = json.loads(json.dumps(cur))
                 del cand['pools'][i]
